@@ -238,7 +238,11 @@ class Poly:
                 r = r * self
             return r
         c, q = self.content()
-        return _const_pow(c, e) * Poly.atom(('poly', q), e)
+        mono, q = q.common_monomial()
+        r = _const_pow(c, e) * Poly.atom(('poly', q), e)
+        if mono:
+            r = r * Poly(((mono, Fraction(1)),)).pow(e)
+        return r
 
     def __pow__(self, e):
         if isinstance(e, Poly):
@@ -260,6 +264,24 @@ class Poly:
         if self.terms[0][1] < 0:
             c = -c
         return c, Poly(tuple((m, k / c) for m, k in self.terms))
+
+    def common_monomial(self):
+        """(M, Q) with self = M*Q where M collects, for every atom present in
+        all terms, its minimum exponent (may be negative)."""
+        if len(self.terms) < 2:
+            return (), self
+        common = None
+        for m, _ in self.terms:
+            d = dict(m)
+            if common is None:
+                common = d
+            else:
+                common = {a: min(e, d[a]) for a, e in common.items() if a in d}
+            if not common:
+                return (), self
+        mono = tuple(sorted(common.items(), key=lambda ae: akey(ae[0])))
+        inv = Poly(((tuple((a, -e) for a, e in mono), Fraction(1)),))
+        return mono, self * inv
 
     # -- substitution
     def subst(self, mapping):
